@@ -142,9 +142,16 @@ def build_yaml_text(spec, style=None):
     counter = [0]
     out_circuits = []
 
+    shared_names = {}
+
     def circ(c, top=False):
+        tag = c.get('__share')
+        if tag is not None and tag in shared_names:
+            return shared_names[tag]         # one template referenced under several keys (the loader hands out one object)
         name = c['name'] if top else f"{c['name']}_t{counter[0]}"
         counter[0] += 1
+        if tag is not None:
+            shared_names[tag] = name
         sub_names = {}
         for k, v in c.get('subs', {}).items():
             sub_names[k] = circ(v)
